@@ -158,6 +158,10 @@ func (s *SigBlob) VerifyPages(r io.Reader) error {
 		}
 		return nil
 	}
+	if dir.Header.PageSizeLog2 > 24 {
+		// the exponent comes from the signature; real ones are 12 or 14
+		return fmt.Errorf("unreasonable page size 2^%d", dir.Header.PageSizeLog2)
+	}
 	pageSize := int64(1 << dir.Header.PageSizeLog2)
 	page := make([]byte, pageSize)
 	h := dir.HashFunc.New()
